@@ -110,6 +110,26 @@ def _kw_form(c: ast.Call, sig: List[str]):
     return out, rest
 
 
+def positional(c: ast.Call) -> Optional[List[ast.AST]]:
+    """the arguments of a call in the callee's parameter order (keywords placed by the repo signature of that name);
+    None when the callee is unknown or the call does not fill a prefix of the parameters"""
+    name = c.func.attr if isinstance(c.func, ast.Attribute) else c.func.id if isinstance(c.func, ast.Name) else None
+    sig = SIGNATURES.get(name) if name else None
+    if not c.keywords:
+        return list(c.args)
+    if sig is None:
+        return None
+    kw, _ = _kw_form(c, sig)
+    if kw is None:
+        return None
+    out = []
+    for p_ in sig:
+        if p_ not in kw:
+            break
+        out.append(kw[p_])
+    return out if len(out) == len(kw) else None
+
+
 def _margs(p: ast.Call, e: ast.Call, b: Binds) -> bool:
     b0 = dict(b)
     if _margs_plain(p, e, b):
